@@ -237,6 +237,7 @@ def build(run):
             return w
 
         # (1) element name of start tag = element name of end tag (or self-closing and no end tag)
+        pre += "; LEMMA\n"
         q1 = pre + "(define-fun n () String (str.substr end 2 (- (str.len end) 3)))\n(assert (distinct start \"\"))\n" \
             "(assert (not (or (and (str.in_re start (re.++ (re.* (re.diff re.allchar (str.to_re \">\"))) (str.to_re \"/>\") re.all)) (= end \"\")) " \
             "(and (str.in_re end (re.++ (str.to_re \"</\") %s (str.to_re \">\"))) (str.prefixof (str.++ \"<\" n) start) " \
@@ -327,4 +328,5 @@ def _loop(run, lid, query, get, witness, claim):
     """Finite-sort lemma: one query per command (cmd fixed, hole values symbolic), so that a listed known finding
     for one command cannot hide another command and the solver never has to case-split on the template."""
     for i, c in enumerate(COMMANDS):
-        run.smt("%s.%s" % (lid, c), query + "\n(assert (= cmd %d))" % i, get=get, witness=witness, claim=claim, timeout=30)
+        run.smt("%s.%s" % (lid, c), query + "\n(assert (= cmd %d))" % i, get=get, witness=witness, claim=claim, timeout=30,
+                vacuity=query[:query.index("; LEMMA")] + "\n(assert (distinct start \"\"))\n(assert (= cmd %d))" % i, vacuous_ok=True)
